@@ -636,7 +636,11 @@ static void fam_envelope() {
             else if (pt.got.size() > maxcb) { bad = true; add_viol(cls + "-more-than-one-callback-per-message", rep + " got=" + show(pt.got)); }
             else for (auto &m : pt.got) {
               if (m.kind == 0 && !(js.contains("method") && js["method"].is_string() && js["method"] == m.method && m.v == (js.contains("params") ? js["params"] : Json()))) { bad = true; add_viol(cls + "-request-callback-does-not-match-message", rep + " got=" + show(pt.got)); break; }
-              if (m.kind == 1 && m.errcode == 0 && !(js.contains("result") && m.v == js["result"])) { bad = true; add_viol(cls + "-result-callback-does-not-match-message", rep + " got=" + show(pt.got)); break; }
+              if (m.kind == 1 && js.contains("method")) { bad = true; add_viol(cls + "-response-callback-for-a-request-message", rep + " got=" + show(pt.got)); break; }
+              if (m.kind == 1 && js.contains("result") && !(m.errcode == 0 && m.v == js["result"])) { bad = true; add_viol(cls + "-result-callback-does-not-match-message", rep + " got=" + show(pt.got)); break; }
+              if (m.kind == 1 && !js.contains("result") && !(js.contains("error") && m.v.is_null())) { bad = true; add_viol(cls + "-error-callback-does-not-match-message", rep + " got=" + show(pt.got)); break; }
+              // (an error code outside int range is narrowed by util::json::Get(int): outside this property, only noted)
+              if (m.kind == 1 && !js.contains("result") && js["error"].is_object() && js["error"].contains("code") && js["error"]["code"] != m.errcode) add_outcome("envelope: error code outside int range reaches the callback narrowed");
               if (!(js.contains("jsonrpc") && js["jsonrpc"] == "2.0")) { bad = true; add_viol(cls + "-callback-for-wrong-version", rep + " got=" + show(pt.got)); break; }
             }
             if (!bad) add_outcome(fmt("envelope %s callbacks=%zu", PN[k], pt.got.size()));
